@@ -4,7 +4,10 @@
 package util
 
 import (
+	"errors"
+	"fmt"
 	"net"
+	"net/http"
 	"net/netip"
 	"strings"
 )
@@ -23,4 +26,26 @@ func IsLoopback(addr string) bool {
 		return false
 	}
 	return ip.IsLoopback()
+}
+
+// HTTPSOrLoopbackRedirects returns a copy of c whose redirect policy, in
+// addition to c's own, refuses to follow a redirect to a URL that is neither
+// HTTPS nor on a loopback address. Callers that vet the URLs they request this
+// way use it so that a redirect cannot lead the request (for a 307 or 308,
+// together with its body) to a URL that would not have passed.
+func HTTPSOrLoopbackRedirects(c *http.Client) *http.Client {
+	cc := *c
+	cc.CheckRedirect = func(req *http.Request, via []*http.Request) error {
+		if req.URL.Scheme != "https" && !IsLoopback(req.URL.Host) {
+			return fmt.Errorf("refusing redirect to %q: not HTTPS or a loopback address", req.URL)
+		}
+		if c.CheckRedirect != nil {
+			return c.CheckRedirect(req, via)
+		}
+		if len(via) >= 10 { // the default policy of net/http
+			return errors.New("stopped after 10 redirects")
+		}
+		return nil
+	}
+	return &cc
 }
